@@ -1,11 +1,21 @@
 import DV.InsModel
 import DV.TokDrv
+import DV.EncModel
 open InsModel
 def handle (line : String) : String :=
   match (line.trimAscii.toString.splitOn " ") with
   | "build" :: n :: r :: ss =>
     match n.toNat?, (ss.mapM String.toNat?) with
     | some n, some ss => InsModel.render (build n (r == "1") ss)
+    | _, _ => "bad-op"
+  | "encode" :: r :: n :: rest =>
+    match n.toNat?, rest.mapM String.toInt? with
+    | some n, some xs =>
+      let par := (xs.take n).toArray
+      let tax := (xs.drop n).toArray
+      let root := ((List.range n).find? (fun j => par[j]! == -1)).getD 0
+      let t := EncModel.build (n+1) par tax root
+      " ".intercalate ((EncModel.sortPairs (EncModel.encode (r == "1") t)).map (fun p => s!"{p.1}:{p.2}"))
     | _, _ => "bad-op"
   | ["tokens", pu, h] => " ".intercalate (TokDrv.allTokens (pu == "1") (TokDrv.unhex h.toList) [])
   | ["tokens", pu] => " ".intercalate (TokDrv.allTokens (pu == "1") [] [])
